@@ -3,6 +3,7 @@
 -/
 import SplVerif.Model.Features
 import SplVerif.Lemmas.FoldPos
+import SplVerif.Lemmas.Extents
 
 namespace Spl.C17
 open Spl.Feat
@@ -157,5 +158,232 @@ theorem fold_wellformed (d : AnalyzedSource) (hinv : lex d.text = .ok d.tokens)
           · exact ih rs' h2 r hr
     | type td => simp only [foldDecls] at h; exact ih rs h
     | error i => simp only [foldDecls] at h; exact ih rs h
+
+
+/-- **Every folding range lies inside the document**: it ends no later than the last line of the
+    text — for every document whose token vector is the tokenisation of its text. -/
+theorem fold_end_inside (d : AnalyzedSource) (hinv : lex d.text = .ok d.tokens)
+    (pd : ProcDecl) (offset : Nat) (r : Nat × Nat) (h : foldOne d pd offset = .ok r) :
+    r.2 ≤ (asPosition (utf8Len d.text) d.text).line := by
+  unfold foldOne at h
+  cases hs : (allTokens d).sub (pd.info.range.shift offset) with
+  | none => simp [hs] at h
+  | some s =>
+    simp only [hs, Except.ok.injEq] at h
+    subst h
+    have hsub : (skipLeadingComments s.toList).Sublist d.tokens := by
+      have h1 : (skipLeadingComments s.toList).Sublist s.toList := (skipLeadingComments_suffix _).sublist
+      have h2 := slice_toList_sublist s
+      have h3 : s.toks = d.tokens.toArray := by
+        simp only [allTokens, Slice.full, Slice.sub] at hs
+        by_cases hc : (pd.info.range.shift offset).lo ≤ (pd.info.range.shift offset).hi ∧
+            0 + (pd.info.range.shift offset).hi ≤ d.tokens.toArray.size
+        · simp only [hc, and_self, if_true, Option.some.injEq] at hs
+          rw [← hs]
+        · simp only [hc, if_false] at hs
+          cases hs
+      rw [h3] at h2
+      exact h1.trans (by simpa using h2)
+    cases hts : skipLeadingComments s.toList with
+    | nil =>
+      have := FoldPos.asPosition_line_mono [] d.text []
+      simpa [asPosRange] using this
+    | cons f xs =>
+      rw [hts] at hsub
+      cases hl : (f :: xs).getLast? with
+      | none => simp at hl
+      | some l =>
+        simp only [List.head?_cons, asPosRange]
+        have hlm : l ∈ d.tokens := hsub.subset (List.mem_of_getLast? hl)
+        obtain ⟨_, ⟨a2, b2, e2, p2⟩⟩ := FoldPos.token_bounds_are_cuts d.text d.tokens hinv l hlm
+        have := FoldPos.asPosition_line_mono a2 b2 []
+        rw [← p2]
+        have et : d.text = a2 ++ (b2 ++ []) := by simpa using e2
+        have el : utf8Len d.text = utf8Len (a2 ++ b2) := by rw [e2]
+        rw [el, et]
+        exact this
+
+/-! ### the exact ranges of valid programs -/
+
+open Spl.ParseConform in
+/-- `FoldsAre A text es rs`: `rs` lists, for every extent `(i, k)` of `es` in order, the line on
+    which token `i` starts and the line on which token `k` ends -/
+inductive FoldsAre (A : Array Token) (text : List Char) : List (Nat × Nat) → List (Nat × Nat) → Prop
+  | nil : FoldsAre A text [] []
+  | cons (i k : Nat) (tp tb : Token) (es rs : List (Nat × Nat)) :
+      A[i]? = some tp → A[k]? = some tb → FoldsAre A text es rs →
+      FoldsAre A text ((i, k) :: es)
+        (((asPosition tp.range.lo text).line, (asPosition tb.range.hi text).line) :: rs)
+
+theorem drop_take_cons (l : List Token) (p hi : Nat) (t : Token) (h : l[p]? = some t) (hp : p < hi) :
+    (l.take hi).drop p = t :: (l.take hi).drop (p + 1) := by
+  have hlt : p < l.length := (List.getElem?_eq_some_iff.mp h).1
+  have hl : p < (l.take hi).length := by simp; omega
+  rw [List.drop_eq_getElem_cons hl]
+  congr 1
+  rw [List.getElem_take]
+  exact (List.getElem?_eq_some_iff.mp h).2
+
+/-- skipping the comment run in front of the first own token -/
+theorem skip_run (l : List Token) (hi : Nat) : ∀ (n p i : Nat), i - p = n → p ≤ i → i < hi →
+    (∀ q, p ≤ q → q < i → ∃ t, l[q]? = some t ∧ t.kind = .Comment) →
+    (∃ t, l[i]? = some t ∧ t.kind ≠ .Comment) →
+    skipLeadingComments ((l.take hi).drop p) = (l.take hi).drop i
+  | 0, p, i, hn, hle, hhi, _, ⟨t, ht, hk⟩ => by
+    have : i = p := by omega
+    subst this
+    rw [drop_take_cons l i hi t ht hhi]
+    have : (t.kind == Kind.Comment) = false := by simpa using hk
+    simp [skipLeadingComments, this]
+  | n + 1, p, i, hn, hle, hhi, hc, htok => by
+    obtain ⟨t, ht, hk⟩ := hc p (Nat.le_refl _) (by omega)
+    rw [drop_take_cons l p hi t ht (by omega)]
+    have : (t.kind == Kind.Comment) = true := by simpa using hk
+    simp only [skipLeadingComments, this, if_true]
+    exact skip_run l hi n (p + 1) i (by omega) (by omega) hhi (fun q a b => hc q (by omega) b) htok
+
+open Spl.ParseConform in
+/-- one procedure: the handler's range starts on the line of the `proc` keyword and ends on the
+    line of the closing brace -/
+theorem foldOne_exact (d : AnalyzedSource) (p i k : Nat) (pd : ProcDecl) (tp tb : Token)
+    (hN : Next d.tokens.toArray p i) (hi : d.tokens.toArray[i]? = some tp) (hik : i < k)
+    (hk : d.tokens.toArray[k]? = some tb) (hr : pd.info.range = ⟨0, k + 1 - p⟩) :
+    foldOne d pd p = .ok ((asPosition tp.range.lo d.text).line, (asPosition tb.range.hi d.text).line) := by
+  have hpi := hN.le
+  have hksz : k < d.tokens.length := by
+    have := (Array.getElem?_eq_some_iff.mp hk).1
+    simpa using this
+  have hsub : (allTokens d).sub (pd.info.range.shift p) = some ⟨d.tokens.toArray, p, k + 1⟩ := by
+    simp only [allTokens, Slice.full, Slice.sub, hr, Range.shift]
+    have h1 : 0 + p ≤ k + 1 - p + p ∧ 0 + (k + 1 - p + p) ≤ d.tokens.toArray.size := by
+      simp; omega
+    simp only [h1, and_self, if_true, Option.some.injEq, Slice.mk.injEq, true_and]
+    omega
+  have hl : ∀ q : Nat, d.tokens.toArray[q]? = d.tokens[q]? := by intro q; simp
+  have hskip : skipLeadingComments (Slice.toList ⟨d.tokens.toArray, p, k + 1⟩) = (d.tokens.take (k + 1)).drop i := by
+    simp only [Slice.toList, Array.toList_extract, List.extract_eq_take_drop]
+    have e : (List.take (k + 1 - p) (List.drop p d.tokens)) = (d.tokens.take (k + 1)).drop p := by
+      rw [List.drop_take]
+    rw [e]
+    refine skip_run d.tokens (k + 1) (i - p) p i rfl hpi (by omega) ?_ ?_
+    · intro q a b
+      obtain ⟨t, ht, hk⟩ := hN.cmts q a b
+      exact ⟨t, by rw [← hl]; exact ht, hk⟩
+    · obtain ⟨t, ht, hk⟩ := hN.tok
+      exact ⟨t, by rw [← hl]; exact ht, hk⟩
+  have hhead : ((d.tokens.take (k + 1)).drop i).head? = some tp := by
+    rw [drop_take_cons d.tokens i (k + 1) tp (by rw [← hl]; exact hi) (by omega)]
+    rfl
+  have hlast : ((d.tokens.take (k + 1)).drop i).getLast? = some tb := by
+    rw [List.getLast?_eq_getElem?]
+    have hlen : ((d.tokens.take (k + 1)).drop i).length = k + 1 - i := by simp; omega
+    rw [hlen, List.getElem?_drop, List.getElem?_take]
+    have : i + (k + 1 - i - 1) = k := by omega
+    rw [this]
+    simp only [Nat.lt_add_one, if_true]
+    rw [← hl]; exact hk
+  simp only [foldOne, hsub, hskip, hhead, hlast, asPosRange]
+
+open Spl.ParseConform in
+/-- the handler on declarations that tile the token sequence -/
+theorem foldDecls_exact (d : AnalyzedSource) : ∀ (p : Nat) (ds : List (Ref GlobalDecl)) (es : List (Nat × Nat)),
+    Tiling d.tokens.toArray p ds es →
+    ∃ rs, foldDecls d ds = .ok rs ∧ FoldsAre d.tokens.toArray d.text es rs := by
+  intro p ds es h
+  induction h with
+  | nil p => exact ⟨[], rfl, FoldsAre.nil⟩
+  | type p i k td rest es _ _ _ _ _ _ ih =>
+    obtain ⟨rs, h1, h2⟩ := ih
+    exact ⟨rs, by simp only [foldDecls, h1], h2⟩
+  | proc p i k pd rest es hN hi hik hk hr _ ih =>
+    obtain ⟨rs, h1, h2⟩ := ih
+    obtain ⟨tp, htp, _⟩ := hi
+    obtain ⟨tb, htb, _⟩ := hk
+    refine ⟨_ :: rs, ?_, FoldsAre.cons i k tp tb es rs htp htb h2⟩
+    simp only [foldDecls, foldOne_exact d p i k pd tp tb hN htp hik htb hr, h1]
+
+open Spl.ParseConform in
+/-- **Exact folding ranges of valid programs, in any layout.**  If the grammar specification
+    derives the document's program from its tokens (comments anywhere, any white space), the
+    handler returns exactly one range per procedure declaration, in source order (`Tiling`:
+    the declarations lie one behind the other, `es` are the indices of each procedure's `proc`
+    keyword — the first token behind its documentation comments — and of its closing brace);
+    each range starts on the line on which that `proc` keyword starts and ends on the line on
+    which that closing brace ends. -/
+theorem fold_exact (d : AnalyzedSource) (hp : Grammar.parse d.tokens = some d.ast) :
+    ∃ es rs, Tiling d.tokens.toArray 0 d.ast.decls es ∧ fold d = .ok rs ∧
+      FoldsAre d.tokens.toArray d.text es rs := by
+  obtain ⟨es, ht⟩ := parse_tiling d.tokens d.ast hp
+  obtain ⟨rs, h1, h2⟩ := foldDecls_exact d 0 d.ast.decls es ht
+  exact ⟨es, rs, ht, h1, h2⟩
+
+/-- every range of `FoldsAre` belongs to an extent -/
+theorem foldsAre_mem (A : Array Token) (text : List Char) (es rs : List (Nat × Nat)) (h : FoldsAre A text es rs) :
+    ∀ r ∈ rs, ∃ e ∈ es, ∃ tp tb, A[e.1]? = some tp ∧ A[e.2]? = some tb ∧
+      r = ((asPosition tp.range.lo text).line, (asPosition tb.range.hi text).line) := by
+  induction h with
+  | nil => intro r hr; cases hr
+  | cons i k tp tb es rs h1 h2 _ ih =>
+    intro r hr
+    rcases List.mem_cons.mp hr with rfl | hr
+    · exact ⟨(i, k), by simp, tp, tb, h1, h2, rfl⟩
+    · obtain ⟨e, he, x⟩ := ih r hr
+      exact ⟨e, List.mem_cons_of_mem _ he, x⟩
+
+/-- the line of a token that lies behind another one is not smaller -/
+theorem line_mono_tokens (d : AnalyzedSource) (hinv : lex d.text = .ok d.tokens) (a b : Nat) (ta tb : Token)
+    (ha : d.tokens[a]? = some ta) (hb : d.tokens[b]? = some tb) (hab : a < b) :
+    (asPosition ta.range.hi d.text).line ≤ (asPosition tb.range.lo d.text).line := by
+  have hs := FoldPos.tokens_sorted d.text d.tokens hinv
+  obtain ⟨ha1, ha2⟩ := List.getElem?_eq_some_iff.mp ha
+  obtain ⟨hb1, hb2⟩ := List.getElem?_eq_some_iff.mp hb
+  have hle : ta.range.hi ≤ tb.range.lo := by
+    have := List.pairwise_iff_getElem.mp hs a b ha1 hb1 hab
+    rw [ha2, hb2] at this
+    exact this
+  have hma : ta ∈ d.tokens := by rw [← ha2]; exact List.getElem_mem _
+  have hmb : tb ∈ d.tokens := by rw [← hb2]; exact List.getElem_mem _
+  obtain ⟨_, ⟨a1, b1, e1, p1⟩⟩ := FoldPos.token_bounds_are_cuts d.text d.tokens hinv ta hma
+  obtain ⟨⟨a2, b2, e2, p2⟩, _⟩ := FoldPos.token_bounds_are_cuts d.text d.tokens hinv tb hmb
+  obtain ⟨m, hm1, hm2⟩ := split_prefix (e1.symm.trans e2) (by omega)
+  have := FoldPos.asPosition_line_mono a1 m b2
+  rw [← p1, ← p2, hm1]
+  have et : d.text = a1 ++ (m ++ b2) := by rw [e2, hm1, List.append_assoc]
+  rw [et]
+  exact this
+
+open Spl.ParseConform in
+/-- **The ranges of a valid program come in source order and do not overlap**: every range ends
+    no later than the line on which the next one starts (two procedures on one line share that
+    line; no range reaches beyond the start line of a later one). -/
+theorem fold_ordered (d : AnalyzedSource) (hinv : lex d.text = .ok d.tokens)
+    (hp : Grammar.parse d.tokens = some d.ast) (rs : List (Nat × Nat)) (h : fold d = .ok rs) :
+    rs.Pairwise (fun a b => a.2 ≤ b.1) := by
+  obtain ⟨es, rs', ht, h1, h2⟩ := fold_exact d hp
+  rw [h] at h1
+  cases h1
+  have hso := (tiling_sorted _ _ _ _ ht).2
+  clear ht h
+  induction h2 with
+  | nil => exact List.Pairwise.nil
+  | cons i k tp tb es rs h1 h2 hfa ih =>
+    rw [List.pairwise_cons] at hso ⊢
+    refine ⟨?_, ih hso.2⟩
+    intro r hr
+    obtain ⟨e, he, tp', tb', g1, g2, rfl⟩ := foldsAre_mem _ _ _ _ hfa r hr
+    have hlt : k < e.1 := hso.1 e he
+    exact line_mono_tokens d hinv k e.1 tb tp' (by simpa using h2) (by simpa using g1) hlt
+
+/-- Non-vacuity: a document with a documentation comment, two procedures and a type declaration
+    is derived by the grammar specification (so that, by C04.parse_conforms, its tree is that
+    derivation and `fold_exact` applies), and its ranges are the ones the theorem describes. -/
+example :
+    (match AnalyzedSource.new "// doc\nproc a() {\n}\ntype t = int;\nproc b() {\n  // c\n}".toList with
+     | .ok d => (Grammar.parse d.tokens).isSome &&
+         (match fold d with
+          | .ok rs => rs == [(1, 2), (4, 6)]
+          | .error _ => false)
+     | .error _ => false) = true := by
+  decide +kernel
 
 end Spl.C17
